@@ -60,3 +60,8 @@ pub fn args(v: &[Vec<u8>]) -> String {
         v.iter().map(|a| arg(a)).collect::<Vec<_>>().join(",")
     }
 }
+
+/// the VM return code of a failing asynchronous call: mostly a user error, now and then one of the others
+pub fn fail_code(rng: &mut crate::rng::Rng) -> u64 {
+    *rng.pick(&[4u64, 4, 4, 1, 2, 3, 5, 9, 10, 12])
+}
